@@ -557,16 +557,21 @@ func runHistories(e *env) {
 			{[]int{512}, []string{"shift", "noprecomp"}, z(1), convOpsNoCoset, 1},
 		}
 	default:
+		z := func(v ...int) func(int) []int { return func(int) []int { return v } }
 		cfgs = []cfg{
-			{[]int{1, 2, 4, 8}, []string{"default", "shift"}, some, convOps, 5},
+			{[]int{1, 2, 4, 8}, []string{"default"}, some, convOps, 5},
+			{[]int{1, 2, 4, 8}, []string{"shift"}, two, convOps, 5},
 			{[]int{1, 2, 4, 8, 16}, []string{"default", "shift"}, allShifts, convOps, 3},
 			{[]int{16, 64}, []string{"default", "shift"}, some, convOps, 4},
 			{[]int{64}, []string{"default"}, allShifts, convOps, 2},
-			{[]int{1, 2, 4, 8}, []string{"default"}, some, allOps, 4},
+			{[]int{2, 8}, []string{"default"}, z(1, -1), allOps, 4},
+			{[]int{1, 4}, []string{"default"}, z(0, 7), allOps, 4},
 			{[]int{1, 2, 4, 8, 32}, []string{"shift"}, allShifts, allOps, 3},
 			{[]int{1, 2, 4, 8, 16, 64}, []string{"noprecomp"}, some, convOpsNoCoset, 4},
-			{[]int{256, 4096}, []string{"default", "noprecomp"}, some, convOpsNoCoset, 3},
-			{[]int{256, 4096}, []string{"shift"}, some, convOps, 3},
+			{[]int{256}, []string{"default", "noprecomp"}, some, convOpsNoCoset, 3},
+			{[]int{256}, []string{"shift"}, some, convOps, 3},
+			{[]int{4096}, []string{"default", "noprecomp"}, two, convOpsNoCoset, 2},
+			{[]int{4096}, []string{"shift"}, two, convOps, 2},
 		}
 	}
 	for ci, cf := range cfgs {
@@ -610,13 +615,13 @@ func runHistories(e *env) {
 				shifts = []int{0} // w_size is not defined for a size that is not a power of two
 			}
 			for _, s := range shifts {
-				L := c.Pick(2, 4)
+				L := c.Pick(2, 3)
 				if x.N > 64 {
-					L = 3
+					L = 2
 				}
 				e.runGroup(e.newGroup(D, x.n0, cr, s, allOps, L))
-				if !T && s <= 1 {
-					e.runGroup(e.newGroup(D, x.n0, cr, s, convOps, 3))
+				if s <= 1 && s >= 0 && x.N <= 64 {
+					e.runGroup(e.newGroup(D, x.n0, cr, s, convOps, c.Pick(3, 4)))
 				}
 			}
 		}
@@ -633,7 +638,7 @@ func runLongHistories(e *env) {
 	L := c.Pick(5, 6)
 	sizes := []int{4}
 	if c.Thorough() {
-		sizes = []int{2, 4, 8}
+		sizes = []int{4, 8}
 	}
 	for _, n := range sizes {
 		D := e.domain(n, "default")
@@ -641,7 +646,7 @@ func runLongHistories(e *env) {
 			continue
 		}
 		for _, f := range iops.AllForms {
-			for _, s := range []int{0, 1, 6, -1} {
+			for _, s := range []int{1, -1} {
 				if !c.Thorough() && s != 1 {
 					continue
 				}
@@ -652,7 +657,9 @@ func runLongHistories(e *env) {
 	if c.Thorough() {
 		D := e.domain(4, "default")
 		for _, f := range iops.AllForms {
-			e.runGroup(e.newGroup(D, 4, f, 1, allOps, 5))
+			if f.Layout == iops.Regular {
+				e.runGroup(e.newGroup(D, 4, f, 1, allOps, 5))
+			}
 		}
 	}
 }
